@@ -89,6 +89,42 @@ static la_int64_t cb_seek(struct archive *a, void *d, la_int64_t off, int whence
 	return t;
 }
 
+/* source 7: several data nodes behind callbacks (archive_read_append_callback_data); the seek callback
+ * behaves like lseek() (offsets beyond the end are accepted, negative ones refused), the skip callback
+ * never leaves its node */
+struct mnode { unsigned char *data; size_t len; la_int64_t pos; size_t bs; unsigned char *blk; };
+static int mn_open(struct archive *a, void *d) { struct mnode *n = d; (void)a; n->pos = 0; return ARCHIVE_OK; }
+static int mn_close(struct archive *a, void *d) { struct mnode *n = d; (void)a; free(n->blk); n->blk = NULL; return ARCHIVE_OK; }
+static ssize_t mn_read(struct archive *a, void *d, const void **buff)
+{
+	struct mnode *n = d; size_t k;
+	(void)a;
+	free(n->blk); n->blk = NULL;
+	if (n->pos >= (la_int64_t)n->len) return 0;
+	k = n->len - (size_t)n->pos; if (k > n->bs) k = n->bs;
+	n->blk = malloc(k); memcpy(n->blk, n->data + n->pos, k); n->pos += (la_int64_t)k;
+	*buff = n->blk;
+	return (ssize_t)k;
+}
+static la_int64_t mn_skip(struct archive *a, void *d, la_int64_t req)
+{
+	struct mnode *n = d; la_int64_t left = (la_int64_t)n->len - n->pos;
+	(void)a;
+	if (left < 0) left = 0;
+	if (req > left) req = left;
+	n->pos += req;
+	return req;
+}
+static la_int64_t mn_seek(struct archive *a, void *d, la_int64_t off, int whence)
+{
+	struct mnode *n = d; la_int64_t t;
+	(void)a;
+	t = (whence == SEEK_SET ? 0 : whence == SEEK_CUR ? n->pos : (la_int64_t)n->len) + off;
+	if (t < 0) return ARCHIVE_FATAL;
+	n->pos = t;
+	return t;
+}
+
 static int status_ok(int r)
 {
 	return r == ARCHIVE_OK || r == ARCHIVE_EOF || r == ARCHIVE_RETRY || r == ARCHIVE_WARN ||
@@ -119,6 +155,8 @@ static void run_case(val *c)
 	pid_t child = 0;
 	FILE *fp = NULL;
 	char path[512], parts[8][512];
+	struct mnode mn[8];
+	int nmn = 0;
 	const char *names[9];
 	unsigned char *buf;
 
@@ -182,6 +220,27 @@ static void run_case(val *c)
 		fp = fopen(path, "rb");
 		r = archive_read_open_FILE(a, fp);
 		break;
+	case 7: {
+		size_t prev = 0;
+		nmn = 0;
+		for (k = 1; k <= v_len(source) && nmn < 8; k++) {
+			size_t cut = (k < v_len(source)) ? (size_t)v_ull(v_at(source, k)) : s.len;
+			if (cut > s.len) cut = s.len;
+			if (cut < prev) cut = prev;
+			mn[nmn].data = s.data + prev; mn[nmn].len = cut - prev; mn[nmn].pos = 0; mn[nmn].blk = NULL;
+			mn[nmn].bs = v_len(s.rplan) ? (size_t)v_ull(v_at(s.rplan, 0)) : 10240;
+			if (mn[nmn].bs == 0) mn[nmn].bs = 1;
+			if (nmn == 0) archive_read_set_callback_data(a, &mn[nmn]);
+			else archive_read_append_callback_data(a, &mn[nmn]);
+			nmn++; prev = cut;
+		}
+		archive_read_set_open_callback(a, mn_open);
+		archive_read_set_read_callback(a, mn_read);
+		archive_read_set_close_callback(a, mn_close);
+		if (v_ll(v_at(c, 3))) archive_read_set_skip_callback(a, mn_skip);
+		if (v_ll(v_at(c, 4))) archive_read_set_seek_callback(a, mn_seek);
+		r = archive_read_open1(a);
+		break; }
 	default: {
 		size_t prev = 0, np = 0;
 		for (k = 1; k <= v_len(source) && np < 8; k++) {
@@ -289,6 +348,7 @@ static void run_case(val *c)
 		/* after the handle is freed nothing obtained on its behalf may remain */
 		if (archive_read_free(a) != ARCHIVE_OK) flags |= 32;
 		free(s.blk);
+		for (i = 0; i < nmn; i++) free(mn[i].blk);
 #if defined(__SANITIZE_ADDRESS__)
 		if (__lsan_do_recoverable_leak_check()) flags |= 16;
 #endif
